@@ -164,6 +164,7 @@ package difflib
 //@ func (*sequenceMatcher).chainB(m)
 //@   mode arr
 //@   requires m != nil && m.IsJunk == nil
+//@   dead loop2, loop3
 //@   assigns m.b2j, m.bJunk, m.bPopular, alloc
 //@   ensures m.b2j != nil && b2jOK(m.b, dom(m.b2j), vals(m.b2j))
 //@   ensures m.bJunk != nil
